@@ -75,7 +75,17 @@ def judge(case):
             first = a[a.rfind(b'\n', 0, k) + 1:k] if k >= 0 else b'x'
             return 'inside-multi-line-comment' if first.strip() else 'inside-own-line-multi-line-comment'
         if x.lstrip() == y.lstrip():
-            if prev.rstrip().endswith((b';', b'{', b'}', b':', b'*/')) or prev.lstrip().startswith((b'#', b'//')):
+            import re as _re0
+            pr = prev.rstrip()
+            # (a comment that trails code does not end a statement: judge the code in front of it)
+            while True:
+                pr2 = _re0.sub(rb'\s*(/\*(?:[^*]|\*(?!/))*\*/|//.*)$', b'', pr)
+                if pr2 == pr or not pr2.strip():
+                    break
+                pr = pr2.rstrip()
+            # (a line-final ':' ends a label or a case line; after anything else it is the colon of a conditional expression)
+            label_end = pr.endswith(b':') and _re0.match(rb'\s*(case\b.*|default\s*|[A-Za-z_]\w*\s*|(public|private|protected)\s*):$', pr) is not None
+            if pr.endswith((b';', b'{', b'}', b'*/')) or label_end or prev.lstrip().startswith((b'#', b'//')):
                 return 'leading-blanks-of-statement-line'
             return 'leading-blanks-of-continuation-line'
         import re as _re
